@@ -127,9 +127,22 @@ def run_case(case: dict) -> dict:
                 monotonic = time
             vclock = nmt_mod.time = _Clock()
             late_from = op.get("late_from")         # index of the first frame that arrives after the deadline
+            t_begin = vclock.time()
             th = threading.Thread(target=waiter, daemon=True)
             th.start()
             fed, late = [], []
+            inj = list(op.get("inject") or [])
+            if inj:
+                # a third party's command frame arrives while the caller is parked in its wait
+                t0 = time.time()
+                while not master.state_update._waiters and th.is_alive() and time.time() - t0 < 5:
+                    time.sleep(0.0005)
+                if th.is_alive():
+                    net1.notify(0, bytearray(inj), 0.0)
+                    net2.notify(0, bytearray(inj), 0.0)
+                    time.sleep(0.01)
+                else:
+                    inj = []
             for k, b in enumerate(op["feed"]):
                 # feed only once the waiter is parked on the condition variable
                 t0 = time.time()
@@ -147,7 +160,10 @@ def run_case(case: dict) -> dict:
                 while master.state_update._waiters and th.is_alive() and time.time() - t0 < 0.05:
                     time.sleep(0.0005)
             th.join(10)
-            log({"e": "wait", "kind": op["kind"], "fed": fed, "late": late, "result": res.get("r", "hang")})
+            # "early": the wait failed well before its time-out (on the clock the library sees) had run out
+            early = res.get("r") == "NmtError" and (vclock.time() - t_begin) < 0.8 * op["timeout"]
+            log({"e": "wait", "kind": op["kind"], "fed": fed, "late": late, "inj": inj, "early": bool(early),
+                 "result": res.get("r", "hang")})
     for i, e in enumerate(ev):
         e["n"] = i + 1
     return {"ev": ev, "nid": nid}
